@@ -46,6 +46,7 @@ S_M == <<77>>
 S_Mdot == <<77, 46>>                                                                       \* "M."
 S_M_ == <<77, 95>>
 S_M_builder == <<77, 95, 98, 117, 105, 108, 100, 101, 114>>
+S_builderSuffix == <<95, 98, 117, 105, 108, 100, 101, 114>>                                   \* "_builder"
 S_isM_ == <<105, 115, 77, 95>>
 S_case_M_ == <<99, 97, 115, 101, 95, 77, 95>>
 S_not_set_case == <<95, 110, 111, 116, 95, 115, 101, 116, 95, 99, 97, 115, 101>>
@@ -176,6 +177,7 @@ PkgDecls(c, n) ==
   LET notOpen == c.level # "open" IN
   <<D(S_M, "type.message")>> \o Opt(notOpen, D(S_M_builder, "type.builder"))
   \o [k \in 1..Len(c.nested) |-> D(GoCamelCase(S_Mdot \o c.nested[k]), "type.nested")]
+  \o (IF notOpen THEN [k \in 1..Len(c.nested) |-> D(GoCamelCase(S_Mdot \o c.nested[k]) \o S_builderSuffix, "type.nested")] ELSE <<>>)
   \o [k \in 1..Len(c.enums) |-> D(GoCamelCase(S_Mdot \o c.enums[k]), "type.nested")]
   \o (IF HasOneof(c) THEN <<D(S_isM_ \o n.ogo, "type.oneofiface")>> \o Opt(notOpen, D(S_case_M_ \o n.ogo, "type.oneofcase"))
                           \o Opt(notOpen, D(S_M_ \o n.ogo \o S_not_set_case, "const.case")) ELSE <<>>)
